@@ -365,7 +365,6 @@ func (d *Doc) Text() string {
 
 // ---------------------------------------------------------------- the facts the Doc states, flattened
 
-type facts map[string]string
 
 func statedComments(cs []Comment) string {
 	var p []string
@@ -464,7 +463,12 @@ func (fa facts) fields(pfx string, fs []*DField) {
 }
 
 // Facts flattens what file fi of the Doc states; paths are the resolved include filenames.
-func (d *Doc) Facts(fi int) facts {
+func (d *Doc) Facts(fi int) facts { return d.FactsMode(fi, false) }
+
+// FactsMode: afterChecker = as thriftgo's semantic pass reads the IDL before generating code: members of a
+// union are Optional whatever is written (semantic/semantic.go ResolveSymbols); "optional keyword is ignored in
+// argument lists" (semantic/checker.go CheckFunctions, a documented warning).
+func (d *Doc) FactsMode(fi int, afterChecker bool) facts {
 	f := d.Files[fi]
 	fa := facts{}
 	fa["filename"] = f.Path
@@ -519,6 +523,11 @@ func (d *Doc) Facts(fi int) facts {
 		cnt[s.Kind]++
 		fa[p+".name"] = s.Name
 		fa.fields(p+".fields", s.Fields)
+		if afterChecker && s.Kind == 'u' {
+			for i := range s.Fields {
+				fa[fmt.Sprintf("%s.fields[%d].req", p, i)] = "Optional"
+			}
+		}
 		fa.annos(p, s.Annos)
 		fa[p+".comments"] = statedComments(s.Comments)
 	}
@@ -541,6 +550,13 @@ func (d *Doc) Facts(fi int) facts {
 				fa.ty(q+".response", fn.Ret)
 			}
 			fa.fields(q+".args", fn.Args)
+			if afterChecker {
+				for ai, a := range fn.Args {
+					if a.Req == 2 {
+						fa[fmt.Sprintf("%s.args[%d].req", q, ai)] = "Default"
+					}
+				}
+			}
 			fa.fields(q+".throws", fn.Throws)
 			fa.annos(q, fn.Annos)
 			fa[q+".comments"] = statedComments(fn.Comments)
